@@ -73,8 +73,31 @@ def gen(rng, scale):
         cases.append(("CGN", code, 5, max(0, mv - 3000))); cases.append(("CGN", code, 0, 10)); cases.append(("CGN", code, 40, 0))
         if mv < 10 ** 6:
             cases.append(("CGN", code, len(oracle.primes_between(0, mv)) + 1, 0))
+        # a request that ends exactly at the largest prime the type can hold, and one prime more
+        s0 = max(0, mv - 2000)
+        inside = [q for q in (oracle.primes_between(s0, mv) if mv < (1 << 40) else nth_from(s0, 500)) if q <= mv]
+        if inside:
+            cases.append(("CGN", code, len(inside), s0))
+            if mv < MAXPRIME:
+                cases.append(("CGN", code, len(inside) + 1, s0))
     for code in (-1, 14, 99):
         cases.append(("CGP", code, 0, 100)); cases.append(("CGN", code, 5, 0))
+    # C API, short dense intervals: more primes than the up-front size estimate, so the malloc'ed array has to grow
+    # while it already holds primes (windows of k consecutive primes with the smallest span among random picks)
+    small = [i for i, b_ in enumerate(oracle.sieve_upto(3 * 10 ** 6)) if b_]
+    for _ in range(40 * scale):
+        k = rng.between(7, 14)
+        best = None
+        for _t in range(60):
+            i = rng.below(len(small) - k)
+            if small[i] > 50 and (best is None or small[i + k - 1] - small[i] < best[1] - best[0]):
+                best = (small[i], small[i + k - 1])
+        cases.append(("CGP", rng.choice([1, 2, 3, 5, 9, 11, 12, 13]), best[0], best[1]))
+    # exhaustive small starts around the cached-prime table
+    for st in range(0, 760):
+        cases.append(("CGP" if st % 2 else "GP", (13 if st % 2 else "u64"), st, st + [0, 1, 7, 30, 200][st % 5]) + ((st % 3,) if st % 2 == 0 else ()))
+        if st % 4 == 0:
+            cases.append(("GN", "u32", 1 + st % 3, st, 0))
     return cases
 
 
@@ -163,8 +186,11 @@ def correspond(ctx, scale=1):
                     if at[0] != "ok" or [int(x) for x in at[3:]] != ev_ or int(at[1]) != len(ev_) or at[2] != "errno=0":
                         bad = "expected array of %d primes, errno untouched" % len(ev_)
                 elif est == "ok":
-                    if not a.startswith("null") or "errno=EDOM" in a or (c[0] == "CGP" and "size=0" not in a):
-                        bad = "expected NULL with size 0 and errno != EDOM (no primes)"
+                    # no primes: NULL with size 0 and errno != EDOM, or a valid array of size 0 (both allowed by the contract)
+                    null_ok = a.startswith("null") and "errno=EDOM" not in a and (c[0] != "CGP" or "size=0" in a)
+                    empty_ok = at[0] == "ok" and len(at) >= 3 and at[1] == "0" and at[2] == "errno=0"
+                    if not (null_ok or empty_ok):
+                        bad = "expected no primes: NULL with size 0 and errno != EDOM, or an array of size 0 with errno untouched"
                 else:
                     if not a.startswith("null") or "errno=EDOM" not in a or (c[0] == "CGP" and "size=0" not in a):
                         bad = "expected NULL, size 0, errno EDOM"
